@@ -624,7 +624,12 @@ reg(Prop("C08", "Search is reproducible and never overspends its node budget",
                          "line modulo time; replay with hard budgets on a third engine; table, history tables and generation "
                          "counter compared bucket by bucket; identical follow-up searches compared"),
           StreamCfg("c08budget", 5000, 60000, judge="judge_c08budget", model=False,
-                    rule="the C06 request sweep (every hard budget k): Counters.Nodes <= k")],
+                    rule="the C06 request sweep (every hard budget k): Counters.Nodes <= k"),
+          StreamCfg("c08par", 45, 600, judge="judge_c08par", model=False,
+                    rule="4..(3+2*NumCPU) fresh engines (own Search, own Board) released together serve the same request WITHOUT "
+                         "WithCounters - hard budget 8k..38k nodes / soft limit with hard cap (datagen style) / soft only, 1-2 plies, "
+                         "x4 in the thorough tier - and must reproduce a solo run (itself run twice): move, score, ponder, nodes "
+                         "and every printed line modulo time; node counts read from the info lines must not pass the budget")],
          trusted=SEARCH_TRUSTED + SKEL_TRUSTED + [
              "determinism with respect to scheduling and wall clock is OBSERVED (two engines in parallel goroutines under CPU load), not proved: "
              "the Go runtime is outside the model; that one Search instance is used by one goroutine only is a reading of the source",
